@@ -205,7 +205,7 @@ def compare_join(acc, rname, w, u, sup, info):
         rtxt = rtxt[:5]
     else:
         from vlib import routes
-        tmpl = "http://h.com/{}" if rname == "join_base" else "http://h.com/{}/t"
+        tmpl = "http://h.com/{}" if rname.split("~")[0] == "join_base" else "http://h.com/{}/t"
         btxt = R.split(R.preprocess(tmpl.replace("{}", w)))[:5]
         rtxt = R.split(info["join_ref"])[:5]
     # yarl's data model (like urllib's) has no "defined but empty" authority/query/fragment: '' is absent
@@ -256,8 +256,8 @@ def case_route(acc, rname, w):
     if info.get("scheme_status") == "unspecified":
         acc.count("scheme_unspecified_skipped")
         return None
-    if rname in BASE_PATHS:
-        info["base_path"] = BASE_PATHS[rname]
+    if rname.split("~")[0] in BASE_PATHS:
+        info["base_path"] = BASE_PATHS[rname.split("~")[0]]
     if "join_base" in info:
         try:
             info["ref_has_authority"] = bool(impl.URL(w).raw_authority)
@@ -315,6 +315,11 @@ def plan(ctx):
             for sp, n in route_spaces:
                 for part in range(n):
                     tasks.append((M, "task_routes", (rname, sp, part, n), b, "r"))
-    ctx.notes["bounds"] = {"routes": len(routes.NAMES), "route_word_spaces": [s for s, _ in route_spaces],
+    for b in BACKENDS:
+        for rname in routes.NAMES_SUB:
+            for sp, n in (("F1", 1), ("X2", 2)):
+                for part in range(n):
+                    tasks.append((M, "task_routes", (rname, sp, part, n), b, "rs"))
+    ctx.notes["bounds"] = {"routes": len(routes.NAMES), "str_subclass_routes": len(routes.NAMES_SUB), "route_word_spaces": [s for s, _ in route_spaces],
                            "alphabet_sizes": {"FULL": len(FULL), "CLSX": len(CLSX), "CORE": len(A.CORE)}}
     return tasks
